@@ -500,7 +500,7 @@ def contract(fx, body, bb, t, kind, descr):
         if "HashMap<std::string::String, models::link::metadata::LinkMetadata>" in tys[0] and tys[1].lstrip("&") == "str":
             kl = body.trace(t["args"][1])
             if kl and all(l.kind == "call" and (callee_name(l.data[1]) or "").endswith("SupplyChainItem::name") and
-                          all(x.kind == "param" and x.path[:1] == (("f", "steps"),) for x in body.trace(l.data[1]["args"][0])) for l in kl) \
+                          all(x.kind == "param" and ("f", "steps") in x.path[:3] for x in body.trace(l.data[1]["args"][0])) for l in kl) \
                     and all(l.kind == "param" for l in body.trace(t["args"][0])):
                 return ("G8-premise", "reduced-link map indexed by the name of one of the layout's own steps: every step name has an entry - the "
                         "threshold stage inserts one entry per layout step, the sub-layout and reduce stages keep every key or return Err "
